@@ -44,6 +44,92 @@ theorem entry_roundtrip (c : Char) (cs decl rest : List Char)
   simp only [classAndStyle, hident]
   simp [skipSpace, isSpaceTab, sym, hbody, List.dropWhile]
 
+/-- the same with the rest made explicit: what is left are the blanks after the closing brace skipped -/
+theorem entry_roundtrip_rest (c : Char) (cs decl rest : List Char)
+    (hs : identStart c = true) (hcs : ∀ d ∈ cs, identCont d = true)
+    (hd : ∀ d ∈ decl, notBrace d = true) :
+    classAndStyle (entryText (c :: cs) decl ++ rest) = some ((c :: cs, decl), skipSpace rest) := by
+  have hsp : identCont ' ' = false := by decide
+  obtain ⟨t1, t2⟩ := takeWhile_append_stop identCont cs ('=' :: ' ' :: '{' :: (decl ++ '}' :: rest)) ' ' hcs hsp
+  have hident : ident (entryText (c :: cs) decl ++ rest) =
+      some (c :: cs, ' ' :: '=' :: ' ' :: '{' :: (decl ++ '}' :: rest)) := by
+    simp only [entryText, List.cons_append, ident, hs, if_true, List.append_assoc,
+      List.nil_append, t1, t2]
+  have hbr : notBrace '}' = false := by decide
+  obtain ⟨b1, b2⟩ := takeWhile_append_stop notBrace decl rest '}' hd hbr
+  have hbody : cssStyles ('{' :: (decl ++ '}' :: rest)) = some (decl, rest) := by
+    simp [cssStyles, sym, b1, b2]
+  simp only [classAndStyle, hident]
+  simp [skipSpace, isSpaceTab, sym, hbody, List.dropWhile]
+
+/-- an entry the property speaks about: an identifier and a brace-free declaration -/
+def ValidEntry (e : List Char × List Char) : Prop :=
+  ∃ c cs, e.1 = c :: cs ∧ identStart c = true ∧ (∀ d ∈ cs, identCont d = true) ∧
+    ∀ d ∈ e.2, notBrace d = true
+
+/-- the entries after the first one, each on its own line -/
+def moreEntries : List (List Char × List Char) → List Char
+  | [] => []
+  | e :: es => '\n' :: (entryText e.1 e.2 ++ moreEntries es)
+
+theorem skipSpace_moreEntries (es : List (List Char × List Char)) :
+    skipSpace (moreEntries es) = moreEntries es := by
+  cases es with
+  | nil => rfl
+  | cons e es => simp [moreEntries, skipSpace, isSpaceTab, List.dropWhile]
+
+theorem styleListMore_entries (es : List (List Char × List Char)) (h : ∀ e ∈ es, ValidEntry e) :
+    ∀ fuel, es.length ≤ fuel → styleListMore fuel (moreEntries es) = (es, []) := by
+  induction es with
+  | nil =>
+    intro fuel _
+    cases fuel <;> simp [styleListMore, moreEntries, newLine]
+  | cons e es ih =>
+    intro fuel hf
+    cases fuel with
+    | zero => simp at hf
+    | succ fuel =>
+      obtain ⟨c, cs, hname, hs, hcs, hd⟩ := h e (by simp)
+      have hcl := entry_roundtrip_rest c cs e.2 (moreEntries es) hs hcs hd
+      rw [← hname, skipSpace_moreEntries] at hcl
+      have hnl : newLine ('\n' :: (entryText e.1 e.2 ++ moreEntries es)) =
+          some (entryText e.1 e.2 ++ moreEntries es) := by simp [newLine]
+      simp only [moreEntries, styleListMore, hnl, hcl]
+      rw [ih (fun x hx => h x (List.mem_cons_of_mem _ hx)) fuel (by simp at hf; omega)]
+
+/-- the legend as the property writes it: header, one entry per line -/
+def legendText : List (List Char × List Char) → List Char
+  | [] => ['#', ' ', 'L', 'e', 'g', 'e', 'n', 'd', ':']
+  | e :: es => ['#', ' ', 'L', 'e', 'g', 'e', 'n', 'd', ':', '\n'] ++ (entryText e.1 e.2 ++ moreEntries es)
+
+theorem moreEntries_length (es : List (List Char × List Char)) : es.length ≤ (moreEntries es).length := by
+  induction es with
+  | nil => simp
+  | cons e es ih => simp only [moreEntries, List.length_cons, List.length_append]; omega
+
+/-- **a legend of any number of entries round-trips**: identifiers and brace-free declarations,
+one entry per line — parsing yields exactly the entries, in order -/
+theorem legend_roundtrip (es : List (List Char × List Char)) (h : ∀ e ∈ es, ValidEntry e) :
+    parseCssLegend (legendText es) = some es := by
+  cases es with
+  | nil =>
+    have hl : legendTag = ['L', 'e', 'g', 'e', 'n', 'd', ':'] := by decide
+    simp [legendText, parseCssLegend, sym, skipSpace, isSpaceTab, tagStr, hl, newLine, List.dropWhile]
+  | cons e es =>
+    obtain ⟨c, cs, hname, hs, hcs, hd⟩ := h e (by simp)
+    have hcl := entry_roundtrip_rest c cs e.2 (moreEntries es) hs hcs hd
+    rw [← hname, skipSpace_moreEntries] at hcl
+    have hmore := styleListMore_entries es (fun x hx => h x (List.mem_cons_of_mem _ hx))
+      (moreEntries es).length (moreEntries_length es)
+    have hlist : cssStyleList (entryText e.1 e.2 ++ moreEntries es) = (e :: es, []) := by
+      simp only [cssStyleList, hcl, hmore]
+    have hhead : parseCssLegend (['#', ' ', 'L', 'e', 'g', 'e', 'n', 'd', ':', '\n'] ++
+          (entryText e.1 e.2 ++ moreEntries es)) =
+        some (cssStyleList (entryText e.1 e.2 ++ moreEntries es)).1 := by
+      have hl : legendTag = ['L', 'e', 'g', 'e', 'n', 'd', ':'] := by decide
+      simp [parseCssLegend, sym, skipSpace, isSpaceTab, tagStr, hl, newLine, List.dropWhile]
+    simp only [legendText, hhead, hlist]
+
 /-- **CSS rule text**: `.svgbob .name{ declarations }`, rules joined by newlines, in order -/
 theorem legend_css_one (n d : List Char) :
     legendCss [(n, d)] = ".svgbob .".toList ++ n ++ "{ ".toList ++ d ++ " }".toList := by
@@ -106,6 +192,12 @@ theorem tag_outside_is_not_consumed (len : List Char → Nat) (unit : Int) (f : 
     (tags : List (List Char)) (other : FTree) (hfit : canFit len unit f other.frag = false) :
     FTree.encloseDF len unit other (.node f tags []) = none := by
   simp [FTree.encloseDF, FTree.encloseDFList, hfit]
+
+/-! Non-vacuity: two concrete entries are valid and round-trip. -/
+example : ValidEntry ("a".toList, "fill:red".toList) :=
+  ⟨'a', [], rfl, by decide, by simp, by decide⟩
+example : parseCssLegend (legendText [("a".toList, "fill:red".toList), ("b_1".toList, "x: y;".toList)]) =
+    some [("a".toList, "fill:red".toList), ("b_1".toList, "x: y;".toList)] := by decide +kernel
 
 /-! Tests (labelled as tests). -/
 example : parseCssLegend "# Legend:\na = {fill:red}\nb_1={x: \"q\";\n y}\n".toList =
